@@ -273,15 +273,19 @@ def execute(g, ctx):
         ctx.violate('count', step, sig, {'device': dev, 'expected': float(cnt),
                                          'observed': c})
         return None
-      if struct == 'arr':
-        gm, gs = pick(sn.mean), pick(sn.std)
-      elif has_int:
-        gm, gs = pick(sn.mean['a']), pick(sn.std['a'])
-      elif F > 1:
-        gm = np.concatenate([pick(sn.mean['a']), pick(sn.mean['b'])])
-        gs = np.concatenate([pick(sn.std['a']), pick(sn.std['b'])])
-      else:
-        gm, gs = pick(sn.mean['a']), pick(sn.std['a'])
+      try:
+        if struct == 'arr':
+          gm, gs = pick(sn.mean), pick(sn.std)
+        elif has_int or F == 1:
+          gm, gs = pick(sn.mean['a']), pick(sn.std['a'])
+        else:
+          gm = np.concatenate([pick(sn.mean['a']), pick(sn.mean['b'])], -1)
+          gs = np.concatenate([pick(sn.std['a']), pick(sn.std['b'])], -1)
+      except (ValueError, IndexError, KeyError) as e:
+        ctx.violate('mean', step, sig, {
+            'device': dev, 'what': 'statistics have the wrong structure',
+            'error': str(e)[:200]})
+        return None
       if np.shape(gm) != mean.shape or np.shape(gs) != mean.shape:
         ctx.violate('mean', step, sig, {
             'device': dev, 'what': 'statistics have the wrong shape',
